@@ -315,6 +315,9 @@ func runC05(c *Ctx) error {
 			if i%6 == 2 {
 				return "splitrr" // the order of declaration across split definitions decides
 			}
+			if i%6 == 4 {
+				return "rrwide" // competing productions numbered below and above ten
+			}
 			return ""
 		},
 		flags: func(i int) []string {
